@@ -189,6 +189,30 @@ Theorem api_ok_is_reply_or_merge : forall key atts n r, api_loop key n atts = So
     (o = OOk r \/ o = OMerged r \/ (exists vs, o = ESplit vs /\ handle_split order key = Some r)).
 Proof. exact api_loop_ok. Qed.
 
+(* the retry loop on top of the query model.  `cids` are the callers created by the successive attempts
+   of one get_record_from_network call (each attempt sends a fresh GetNetworkRecord command), `orders`
+   the iteration orders of the split maps.  The loop's Ok is the Ok of ONE attempt -- a single reply
+   that completed the quorum of that attempt's query, with quorum-many DISTINCT peers having returned
+   the content to THAT query -- or one attempt's merge.  Nothing accumulates across attempts: a holder
+   answering once in every attempt is one peer in each of them. *)
+Theorem api_ok_from_single_attempt : forall evs key n cids orders r,
+  api_loop key n (combine (flat_map (outcomes_of evs) cids) orders) = Some (AOk r) ->
+  (exists c pre e post q po x ps,
+     In c cids /\ evs = pre ++ e :: post /\ e = Found q po r /\
+     find_query q (pending (final pre)) = Some x /\ In c (qcallers x) /\
+     NoDup ps /\ quorum_value (cq (qcfg x)) <= nlen ps /\
+     (forall p, In p ps -> replied (pre ++ [e]) q p (rcont r)) /\
+     does_target_match (qcfg x) r = true) \/
+  (exists c o, In c cids /\ In (c, o) (outs evs) /\
+     (o = OMerged r \/ exists vs order, o = ESplit vs /\ handle_split order key = Some r)).
+Proof. exact api_ok_from_single_attempt_lemma. Qed.
+
+(* an error returned by the loop is the unchanged error of one of its attempts (the last one made) *)
+Theorem api_err_is_an_attempts_error : forall evs key n cids orders e,
+  api_loop key n (combine (flat_map (outcomes_of evs) cids) orders) = Some (AErr e) ->
+  exists c, In c cids /\ In (c, e) (outs evs).
+Proof. exact api_err_is_last_attempt_lemma. Qed.
+
 (* (e) refutations, replayed on the real code from corpus/C05 (known classes F10 / F11) *)
 Theorem joined_caller_refuted :
   exists pre e c r key cf,
